@@ -10,6 +10,7 @@ import (
 	"cosmossdk.io/math"
 	abci "github.com/cometbft/cometbft/abci/types"
 	cmttypes "github.com/cometbft/cometbft/types"
+	sdk "github.com/cosmos/cosmos-sdk/types"
 	"github.com/ethereum/go-ethereum/common"
 	"github.com/ethereum/go-ethereum/core/types/goattypes"
 	ethcrypto "github.com/ethereum/go-ethereum/crypto"
@@ -66,12 +67,13 @@ type lockCfg struct {
 	Rotate         bool
 	StepOpts       func(*world.StepOpts)
 	Step           time.Duration
-	JumpTime       bool // occasional large block-time steps
-	TimeEdges      bool // block times placed 1 s / 1 ns before, exactly at and 1 ns / 1 s after the next unlock maturity or jail end
-	TargetPunished bool // lock/unlock requests prefer jailed and tombstoned validators
-	EvidenceAges   bool // evidence height and time ages are drawn independently around the limits
-	HugeWeights    bool // token weights up to 2^62 (total voting power must still stay acceptable)
-	Protect0       bool // validator 0 (the node's own) is never punished or pushed below a threshold
+	JumpTime       bool             // occasional large block-time steps
+	TimeEdges      bool             // block times placed 1 s / 1 ns before, exactly at and 1 ns / 1 s after the next unlock maturity or jail end
+	TargetPunished bool             // lock/unlock requests prefer jailed and tombstoned validators
+	EvidenceAges   bool             // evidence height and time ages are drawn independently around the limits
+	HugeWeights    bool             // token weights up to 2^62 (total voting power must still stay acceptable)
+	Protect0       bool             // validator 0 (the node's own) is never punished or pushed below a threshold
+	ExtraAccounts  []sdk.AccAddress // accounts that exist at genesis besides validators and relayer members
 }
 
 type hVal struct {
@@ -183,7 +185,7 @@ func newLockHistSchnorr(c *vc.Ctx, cfg lockCfg, idx int, schnorrKey bool) (*lock
 	h := &lockHist{c: c, cfg: cfg, r: world.NewRand(c.Seed, "lockhist/"+cfg.Label, idx), unlocks: map[uint64]*unlockRec{}, claims: map[uint64]*claimRec{}, absentRun: map[int]int{}}
 	h.tokens = []common.Address{tokBTC, tokGOAT, tokX}
 	one := math.NewIntFromUint64(1e18)
-	w, err := world.New(world.Config{Seed: c.Seed, Label: fmt.Sprintf("%s-%d", cfg.Label, idx), Schnorr: schnorrKey, DiskDB: cfg.DiskDB, NVals: cfg.NVals, NNodes: cfg.NNodes, MempoolMax: cfg.MempoolMax, RealTime: cfg.RealTime, Powers: cfg.Powers, Cons: cfg.Cons, Relayer: cfg.Relayer, NRelayers: cfg.NRelayers,
+	w, err := world.New(world.Config{Seed: c.Seed, Label: fmt.Sprintf("%s-%d", cfg.Label, idx), Schnorr: schnorrKey, DiskDB: cfg.DiskDB, NVals: cfg.NVals, NNodes: cfg.NNodes, MempoolMax: cfg.MempoolMax, RealTime: cfg.RealTime, Powers: cfg.Powers, Cons: cfg.Cons, Relayer: cfg.Relayer, NRelayers: cfg.NRelayers, ExtraAccounts: cfg.ExtraAccounts,
 		Locking: func(g *lockingtypes.GenesisState) {
 			if cfg.MaxVals > 0 {
 				g.Params.MaxValidators = cfg.MaxVals
